@@ -1769,17 +1769,25 @@ def run(ctx) -> Result:
         done += len(batch)
     if True:  # exhaustive small scope (~800 cases, ~20 s): both tiers
         small = enumerate_small()
+        n_small = 0
         for i in range(0, len(small), 100):
+            if time.time() > ctx.deadline:
+                res.notes.append(f"deadline reached: {len(small) - n_small} cases of the exhaustive small scope skipped")
+                break
             check_cases(res, small[i : i + 100], True, rng)
-        res.count("exhaustive-small-scope", len(small))
-    check_mda_adjoint(res, rng, 400 if ctx.thorough else 45)
+            n_small += len(small[i : i + 100])
+        res.count("exhaustive-small-scope", n_small)
+    if time.time() < ctx.deadline:
+        check_mda_adjoint(res, rng, 400 if ctx.thorough else 45)
+    else:
+        res.notes.append("deadline reached: coupled-adjoint stream skipped")
     probe = []
     for _ in range(max(10, n // 12)):
         try:
             probe.append(gen_case(rng, False))
         except RuntimeError:
             break
-    if probe:
+    if probe and time.time() < ctx.deadline:
         check_cases(res, probe, False, rng)
         res.count("out-of-scope-probes", len(probe))
     return res
@@ -1805,6 +1813,14 @@ def replay(path: str) -> int:
         print(f"impl   request {k}:", l)
     try:
         print("model :", common.run_lean_driver(PID, [line])[0])
+        eline = eval_line(case, run_["structure"])
+        if eline is not None:
+            eans = common.run_lean_driver(PID, [eline])[0]
+            print("eval model (outputs of the executions / data at which every leaf is linearized):", eans)
+            for k, st in enumerate(run_["steps"]):
+                if st.get("lin_at"):
+                    print(f"impl   request {k}: leaves linearized at", {i: _data(list(v), v) for i, v in st["lin_at"].items()})
+            print("eval comparison:", compare_eval(case, run_, eans) or "agree")
     except Exception as e:  # noqa: BLE001
         print("model : (driver failed)", e)
     for k, req in enumerate(case["reqs"]):
